@@ -204,7 +204,16 @@ func genConcOpKind(t *sim.Tape, kind int) concOp {
 func foreignFontOp(t *sim.Tape) concOp {
 	var file []byte
 	what := ""
-	switch t.Choose(5) {
+	switch t.Choose(8) {
+	case 5:
+		file = gen.AliasFont(t)
+		what = "font without /FontName, registered under two names"
+	case 6:
+		file = gen.TinyFont(t)
+		what = "hand-written tiny font"
+	case 7:
+		file = gen.CaseVariantFont(t)
+		what = "font with FontInfo keys differing in case"
 	case 3:
 		file = gen.FractionalWidthFont(t)
 		what = "font with fractional widths"
